@@ -61,9 +61,12 @@ pub enum Via {
     TraitPath,
     InherentPath,
     StructLiteral,
+    /// `v.zz()` on a value of a transitive package's type: uses that package's trait impl
+    /// without naming (or importing) the package
+    MethodSyntax,
 }
 
-pub const ILLEGAL_KINDS: [Illegal; 16] = [
+pub const ILLEGAL_KINDS: [Illegal; 17] = [
     Illegal::NotImported,
     Illegal::NotImportedVia(Via::SignatureType),
     Illegal::NotImportedVia(Via::LetAnnotation),
@@ -72,6 +75,7 @@ pub const ILLEGAL_KINDS: [Illegal; 16] = [
     Illegal::NotImportedVia(Via::TraitPath),
     Illegal::NotImportedVia(Via::InherentPath),
     Illegal::NotImportedVia(Via::StructLiteral),
+    Illegal::NotImportedVia(Via::MethodSyntax),
     Illegal::MissingPackage,
     Illegal::MisnamedPackage,
     Illegal::Cycle,
@@ -137,7 +141,7 @@ pub fn inject(proj: &Project, kind: &Illegal, p: &mut Prng) -> Option<(Files, Fi
             // legal helpers: Q exports a struct, a trait and an inherent method; R (which imports
             // Q) exports a constructor returning Q's struct and a struct implementing Q's trait
             twin.pkgs[qi].raw.push_str(
-                "\nstruct ZzS {\n    x: int32,\n}\n\ntrait ZzT {\n    fn zz(Self) -> int32;\n}\n\nimpl ZzS {\n    fn zzm(self: ZzS) -> int32 {\n        self.x\n    }\n}\n",
+                "\nstruct ZzS {\n    x: int32,\n}\n\ntrait ZzT {\n    fn zz(Self) -> int32;\n}\n\nimpl ZzT for ZzS {\n    fn zz(self: ZzS) -> int32 {\n        self.x + 1\n    }\n}\n\nimpl ZzS {\n    fn zzm(self: ZzS) -> int32 {\n        self.x\n    }\n}\n",
             );
             twin.pkgs[ri].raw.push_str(&format!(
                 "\nstruct ZzR {{\n    x: int32,\n}}\n\nimpl {qn}::ZzT for ZzR {{\n    fn zz(self: ZzR) -> int32 {{\n        self.x\n    }}\n}}\n\nfn zz_make() -> {qn}::ZzS {{\n    {qn}::ZzS {{ x: 5 }}\n}}\n"
@@ -153,6 +157,7 @@ pub fn inject(proj: &Project, kind: &Illegal, p: &mut Prng) -> Option<(Files, Fi
                 Via::TraitPath => format!("fn zz_bad() -> int32 {{\n    {qn}::ZzT::zz({rn}::ZzR {{ x: 2 }})\n}}\n"),
                 Via::InherentPath => format!("fn zz_bad() -> int32 {{\n    {qn}::ZzS::zzm({rn}::zz_make())\n}}\n"),
                 Via::StructLiteral => format!("fn zz_bad() -> int32 {{\n    let v = {qn}::ZzS {{ x: 3 }};\n    1\n}}\n"),
+                Via::MethodSyntax => format!("fn zz_bad() -> int32 {{\n    let v = {rn}::zz_make();\n    v.zz()\n}}\n"),
             };
             bad.pkgs[pi].raw_last.push_str(&format!("\n{item}"));
             desc = format!("{pn} names {qn}::… ({via:?}) although it imports only {rn}, which imports {qn}");
